@@ -480,7 +480,15 @@ def r_tile(ctx, step_only=False):
                 A['resume_line'] = e.node.lineno
                 A['resync_term'] = e.term
         if e.kind == 'aug' and e.name == cursor:
-            A['step'] = affine(e.extra)
+            inc_ = affine(e.extra)
+            if 'step' in A and A['step'] is not None and inc_ is not None:
+                # the cursor advances in several statements of the arm: the step is their sum
+                tot_ = dict(A['step'])
+                for k_, v_ in inc_.items():
+                    tot_[k_] = tot_.get(k_, 0) + v_
+                A['step'] = {k_: v_ for k_, v_ in tot_.items() if v_ != 0 or k_ == 1}
+            else:
+                A['step'] = inc_
         if e.kind == 'append':
             arg = e.term[0] if e.term else None
             if arg is None:
@@ -981,7 +989,16 @@ def r_cand(ctx):
             if d.kind == 'mutate' and isinstance(d.extra, ast.Subscript) and isinstance(nd.stmt, ast.Assign):
                 from ..ctx import _as_load
                 tg = f.term(_as_load(d.extra), nd)
-                if tg[0] == 'sub' and is_call(tg[1], 'builtins.list') and tg[1][2] == (strand,):
+                if tg[0] == 'sub' and is_call(tg[1], 'builtins.list') and tg[1][2] == (strand,) and tg[2][0] == 'slice':
+                    # buffer[p:p] = [x] is buffer.insert(p, x)
+                    if tg[2][1] == tg[2][2] and tg[2][3] in (('c', None), ('c', 1)) and isinstance(nd.stmt.value, (ast.List, ast.Tuple)) \
+                            and len(nd.stmt.value.elts) == 1:
+                        run.check(tg[2][1] == occ, 'R-CAND', f, 'I:inserts-at-occur', nd.lineno, 'insertion at occur_location',
+                                  'the insertion is made at %s, not at occur_location' % show(tg[2][1]), inputs='every deletion error')
+                    else:
+                        run.undecided('R-CAND', f, 'slice-store', nd.lineno, 'slice assignment %s into the candidate buffer is not '
+                                      'recognised' % show(tg[2])[:50])
+                elif tg[0] == 'sub' and is_call(tg[1], 'builtins.list') and tg[1][2] == (strand,):
                     run.check(tg[2] == occ, 'R-CAND', f, 'S:replaces-at-occur', nd.lineno, 'replacement at occur_location',
                               'the substitution is written at %s, not at occur_location' % show(tg[2]), inputs='every substitution')
             if d.kind == 'mutate' and isinstance(d.extra, ast.Attribute) and d.extra.attr == 'insert':
@@ -1546,7 +1563,9 @@ def r_recomb(ctx):
                 item_[3][0] == 'iter' and item_[3][1] == sg
             _tri(run, okb, witb, 'R-RECOMB', f, 'recombination:segment-then-fragment', n_.lineno, 'segment + fragment of the same position',
                  'the joined pieces are %s: the fragment is put before the segment' % show(item_)[:70], inputs='strands with detected errors')
-            anywhere_ = any(any(x[0] == 'sub' and x[1][0] == 'v' and x[1][1] == seg and x[2] == ('c', -1) for x in walk_term(rt))
+            anywhere_ = any(any(x[0] == 'sub' and x[1][0] == 'v' and x[1][1] == seg and
+                                (x[2] == ('c', -1) or x[2][0] not in ('slice', 'idx', 'iter'))
+                                for x in walk_term(rt))
                             for n2, _r, rt in ctx.root_terms(f) if rt is not None and scan not in n2.loops and n2.id != scan)
             _tri(run, tail is not None, not anywhere_, 'R-RECOMB', f, 'recombination:last-segment-appended', nd.lineno,
                  'segments[-1] is appended to the joined candidate',
@@ -1627,7 +1646,10 @@ def r_recomb(ctx):
         def reads_last(t_):
             return any(x[0] == 'sub' and is_seg(x[1]) and x[2] == ('c', -1) for x in walk_term(t_))
         oke = any(reads_last(rt) for n, _r, rt in ctx.root_terms(f) if n.id in body and n.loops[-1] == nd.id and rt is not None)
-        anywhere = any(reads_last(rt) for n, _r, rt in ctx.root_terms(f)
+        def reads_other(t_):
+            # a segment addressed by something that is not a loop position (segments[len(fragments)], segments[n - 1] ...)
+            return any(x[0] == 'sub' and is_seg(x[1]) and x[2][0] not in ('idx', 'iter', 'slice') for x in walk_term(t_))
+        anywhere = any(reads_last(rt) or reads_other(rt) for n, _r, rt in ctx.root_terms(f)
                        if scan not in n.loops and n.id != scan and rt is not None)
         _tri(run, oke, not anywhere, 'R-RECOMB', f, 'recombination:last-segment-appended', nd.lineno,
              'the last segment closes the candidate',
